@@ -391,16 +391,26 @@ def known_signatures(prop):
                 _KNOWN = json.load(f)
         except OSError:
             _KNOWN = []
-    return set(f["signature"] for f in _KNOWN if f.get("status") == "known" and f["property"] == prop)
+    return [f for f in _KNOWN if f.get("status") == "known" and f["property"] == prop]
 
 
 def pick_violation(prop, viols):
     """viols: list of (signature, detail).  Prefer one that is not a recorded known finding."""
     if not viols:
         return None
+    import re
     known = known_signatures(prop)
+
+    def is_known(sig):
+        for f in known:
+            if f.get("signature_re"):
+                if re.search(f["signature_re"], sig):
+                    return True
+            elif f["signature"] == sig:
+                return True
+        return False
     for v in viols:
-        if v[0] not in known:
+        if not is_known(v[0]):
             return v
     return viols[0]
 
@@ -420,10 +430,10 @@ def invalid_tail(m, bad):
     elif kind == "derived":
         name = first.split(" ")[1].split("=")[0]
         f = byname.get(name)
-        if f is not None:
-            starts = set((a.start if (a.kind == "derived" and a.complex) else 0) for a in f.args)
-            if len(starts) > 1:
-                tags.append("args-with-different-start")
+        if f is not None and any(a.kind == "derived" and a.complex for a in f.args):
+            tags.append("derived-over-complex-derived")
+        if f is not None and f.width >= 3 and f.start < f.width - 1:
+            tags.append("wide-window-before-first-trial")
     elif kind == "trial-count":
         name = first.split(" ")[1].rstrip(":")
         f = byname.get(name)
@@ -433,3 +443,24 @@ def invalid_tail(m, bad):
             if f.kind == "derived" and any(a.kind == "derived" and a.complex for a in f.args):
                 tags.append("complex-arg")
     return "/".join([kind] + tags)
+
+
+def family_tags(m):
+    """Tags for regions of the design space with recorded defects (derived factors over complex derived factors).
+    They are appended to violation signatures so that the recorded findings match only designs of that shape."""
+    F = m.factors
+    tags = set()
+    for fid in m.design:
+        f = F[fid]
+        if f.kind != "derived":
+            continue
+        if any(a.kind == "derived" and a.complex for a in f.args):
+            tags.add("derived-over-complex-derived")
+        if f.width >= 3 and f.start < f.width - 1:
+            tags.add("wide-window-before-first-trial")
+    return sorted(tags)
+
+
+def with_family(sig, m, extra=()):
+    t = [x for x in list(family_tags(m)) + list(extra) if x not in sig]
+    return sig + ("/" + ",".join(sorted(set(t))) if t else "")
